@@ -534,9 +534,17 @@ bool positionInData(const DataArray &data, const NDSize &position) {
 
 
 bool positionAndExtentInData(const DataArray &data, const NDSize &position, const NDSize &count) {
-    NDSize pos = position + count;
-    pos -= 1;
-    return positionInData(data, pos);
+    NDSize data_size = data.dataExtent();
+    if (data_size.size() != position.size() || data_size.size() != count.size()) {
+        return false;
+    }
+    for (size_t i = 0; i < data_size.size(); ++i) {
+        // written without position + count, which can wrap around
+        if (count[i] < 1 || position[i] >= data_size[i] || count[i] > data_size[i] - position[i]) {
+            return false;
+        }
+    }
+    return true;
 }
 
 
